@@ -41,8 +41,13 @@ import (
 	"context"
 	"encoding/binary"
 	"encoding/json"
+	"errors"
 	"fmt"
+	"net"
+	"os"
+	"runtime"
 	"strings"
+	"sync"
 	"testing"
 	"time"
 
@@ -327,12 +332,13 @@ type runner struct {
 	classes []string
 	near    bool // some message within one chunk of a limit
 	salt    byte
-	seqC2S  uint32
 }
 
 const (
-	recvWait = 30 * time.Second
-	reqTO    = 30 * time.Second
+	recvWait = 60 * time.Second
+	reqTO    = 60 * time.Second
+
+	caseWatchdog = 20 * time.Minute
 )
 
 func sizeCap() int { return ev.Pick(5<<20, 12<<20) }
@@ -500,37 +506,48 @@ func (r *runner) judge(l limitsT, label string, size int, sendErr error, frames 
 		return nil
 	}
 
-	// the sender refused
-	if k > 0 {
-		return &failure{sig: "C/" + dir + "/refused-but-chunks-on-the-wire", msg: "(C) the send call returned an error but chunks of the message were put on the wire: " + desc}
-	}
-	if overMMS {
-		r.class("%s:%s:refused-over-MaxMessageSize", dir, label)
-		if size == int(l.mms)+1 {
-			r.class("%s:body==MaxMessageSize+1:refused", dir)
+	// the send call returned an error
+	over, kt := overMMS, -1
+	if !over && l.mcc != 0 {
+		var err error
+		if kt, err = twin(); err != nil {
+			r.class("%s:%s:refusal-not-judged(twin failed)", dir, label)
+			return nil
 		}
-		return nil
+		over = uint64(kt) > uint64(l.mcc)
 	}
-	if l.mcc == 0 {
-		lim := "MaxChunkCount=0"
-		if l.mms == 0 {
-			lim = "no limits"
+	if over {
+		if k > 0 {
+			return &failure{sig: "C/" + dir + "/refused-but-chunks-on-the-wire", msg: "(C) the send call returned an error but chunks of the over-limit message were put on the wire: " + desc}
 		}
-		return &failure{sig: "C/" + dir + "/refused-although-within-limits", msg: "(C) the sender refused a message the receiver's limits (" + lim + ") allow: " + desc}
-	}
-	kt, err := twin()
-	if err != nil {
-		r.class("%s:%s:refusal-not-judged(twin failed)", dir, label)
-		return nil
-	}
-	if uint64(kt) > uint64(l.mcc) {
+		if overMMS {
+			r.class("%s:%s:refused-over-MaxMessageSize", dir, label)
+			if size == int(l.mms)+1 {
+				r.class("%s:body==MaxMessageSize+1:refused", dir)
+			}
+			return nil
+		}
 		r.class("%s:%s:refused-over-MaxChunkCount", dir, label)
 		if kt == int(l.mcc)+1 {
 			r.class("%s:chunks==MaxChunkCount+1:refused", dir)
 		}
 		return nil
 	}
-	return &failure{sig: "C/" + dir + "/refused-although-within-limits", msg: fmt.Sprintf("(C) the sender refused a message that it sends in %d chunk(s) when unlimited, within the receiver's limits: %s", kt, desc)}
+	// within the receiver's limits
+	if k > 0 {
+		// not a refusal: the transport failed while the message was being written
+		var ne net.Error
+		return &failure{sig: "B/" + dir + "/send-failed-midway", timing: errors.As(sendErr, &ne) && ne.Timeout(),
+			msg: "(B) sending a message within all advertised limits failed after some chunks had been written: " + desc}
+	}
+	lim := fmt.Sprintf("it sends it in %d chunk(s) when unlimited", kt)
+	if l.mcc == 0 {
+		lim = "MaxChunkCount=0"
+		if l.mms == 0 {
+			lim = "no limits"
+		}
+	}
+	return &failure{sig: "C/" + dir + "/refused-although-within-limits", msg: "(C) the sender refused a message the receiver's limits allow (" + lim + "): " + desc}
 }
 
 // ---------------------------------------------------------------------------
@@ -542,16 +559,45 @@ func (r *runner) nextSalt() byte { r.salt += 7; return r.salt }
 // response and reports what happened on the wire and at the server.
 func c2sSend(p *chanpair.Pair, req *ua.ReadRequest, wantPad int) (size int, sendErr error, frames []netx.Frame, delivered bool, note string, timing bool, got *uasc.MessageBody) {
 	n0 := countMSG(p, netx.C2S)
-	sendErr = p.Client.SendRequest(context.Background(), req, nil, nil)
+	// the server application reads while the client writes (a message may be
+	// larger than what the sockets buffer)
+	recvCh := make(chan *uasc.MessageBody, 1)
+	go func() { recvCh <- p.ServerReceive(recvWait + reqTO) }()
+	sendCh := make(chan error, 1)
+	go func() { sendCh <- p.Client.SendRequest(context.Background(), req, nil, nil) }()
+	var m *uasc.MessageBody
+	haveM := false
+	select {
+	case sendErr = <-sendCh:
+	case m = <-recvCh:
+		haveM = true
+		if m == nil || m.Err != nil || m.Request() == nil {
+			// the receiver gave up on the message; a sender that is still writing
+			// would block until its write deadline
+			select {
+			case <-sendCh:
+			case <-time.After(2 * time.Second):
+				p.ServerConn.Close()
+				p.ClientConn.Close() // the client's Write fails at once
+				<-sendCh
+			}
+			sendErr = nil // the message was on the wire (at least partly) and the receiver rejected it
+		} else {
+			sendErr = <-sendCh
+		}
+	}
 	size = bodySize(req)
 	if sendErr != nil {
-		// barrier: a small request behind it
+		// barrier: a small request behind it, picked up by the pending server Receive
 		ping, _ := requestOfSize(0, 1)
 		if err := p.Client.SendRequest(context.Background(), ping, nil, nil); err == nil {
 			// the ping is the last frame of the direction; once the server has it,
-			// everything the refused call may have written has passed the tap
+			// everything the failed call may have written has passed the tap
+			if !haveM {
+				m = <-recvCh
+			}
 			var fs []netx.Frame
-			if m := p.ServerReceive(recvWait); m != nil && m.Err == nil && m.Request() != nil {
+			if m != nil && m.Err == nil && m.Request() != nil {
 				fs = msgFrames(p, netx.C2S, n0)
 			} else {
 				fs = settled(p, netx.C2S, n0)
@@ -563,10 +609,12 @@ func c2sSend(p *chanpair.Pair, req *ua.ReadRequest, wantPad int) (size int, send
 		}
 		return size, sendErr, settled(p, netx.C2S, n0), false, "barrier request could not be sent", false, nil
 	}
-	m := p.ServerReceive(recvWait)
+	if !haveM {
+		m = <-recvCh
+	}
 	switch {
 	case m == nil:
-		return size, nil, settled(p, netx.C2S, n0), false, fmt.Sprintf("server Receive returned nothing within %v", recvWait), true, nil
+		return size, nil, settled(p, netx.C2S, n0), false, fmt.Sprintf("server Receive returned nothing within %v", recvWait+reqTO), true, nil
 	case m.Err != nil:
 		return size, nil, settled(p, netx.C2S, n0), false, fmt.Sprintf("server Receive returned error %q", m.Err), false, m
 	}
@@ -597,7 +645,7 @@ func (r *runner) twinCount(dir string, size int) func() (int, error) {
 		if f != nil {
 			return 0, fmt.Errorf("%s", f.msg)
 		}
-		defer p.Close()
+		defer closePair(p)
 		if dir == "c2s" {
 			req, pad := requestOfSize(size, 3)
 			_, sendErr, frames, _, _, _, _ := c2sSend(p, req, pad)
@@ -683,7 +731,38 @@ func s2cExchange(p *chanpair.Pair, size int, salt byte) (actual int, sendErr err
 	resp, _ := responseOfSize(handle, size, salt)
 	actual = bodySize(resp)
 	n0 := countMSG(p, netx.S2C)
-	sendErr = p.Server.SendResponseWithContext(context.Background(), m.RequestID, resp)
+	// the server writes in a goroutine of its own: if the client stops reading
+	// (it rejected a chunk) a large response would block in Write for good
+	sendCh := make(chan error, 1)
+	go func() { sendCh <- p.Server.SendResponseWithContext(context.Background(), m.RequestID, resp) }()
+	var (
+		cr       cres
+		returned bool
+		dispErr  error
+		sent     bool
+	)
+	select {
+	case sendErr = <-sendCh:
+		sent = true
+	case dispErr = <-p.ClientErr:
+	case cr = <-done:
+		returned = true
+	case <-time.After(reqTO + recvWait):
+	}
+	if !sent {
+		select {
+		case sendErr = <-sendCh:
+		case <-time.After(2 * time.Second):
+			p.ClientConn.Close()
+			p.ServerConn.Close() // the server's Write fails at once
+			sendErr = <-sendCh
+		}
+		if dispErr != nil || (returned && cr.err != nil) {
+			sendErr = nil // the message was on the wire (at least partly) and the receiver rejected it
+		} else if !returned {
+			return actual, nil, settled(p, netx.S2C, n0), false, "the server's send call did not return", true, nil
+		}
+	}
 	if sendErr != nil {
 		// unblock the client with a small response, which is the barrier as well
 		small, _ := responseOfSize(handle, 0, 1)
@@ -702,7 +781,15 @@ func s2cExchange(p *chanpair.Pair, size int, salt byte) (actual int, sendErr err
 		}
 		return actual, sendErr, settled(p, netx.S2C, n0), false, "barrier response could not be sent", false, nil
 	}
-	cr, returned, dispErr := awaitClient(p, done)
+	if !returned && dispErr == nil {
+		cr, returned, dispErr = awaitClient(p, done)
+	} else if !returned {
+		select {
+		case cr = <-done:
+			returned = true
+		case <-time.After(500 * time.Millisecond):
+		}
+	}
 	switch {
 	case dispErr != nil:
 		note := fmt.Sprintf("client dispatcher error %q", dispErr)
@@ -819,10 +906,12 @@ func (r *runner) doInject(m msgT) *failure {
 		if len(raw) != chunk {
 			panic(fmt.Sprintf("infrastructure: raw chunk %d != %d", len(raw), chunk))
 		}
+		recvCh := make(chan *uasc.MessageBody, 1)
+		go func() { recvCh <- p.ServerReceive(recvWait) }()
 		if err := p.Tap.Inject(netx.C2S, raw); err != nil {
 			panic(fmt.Sprintf("infrastructure: inject: %v", err))
 		}
-		got := p.ServerReceive(recvWait)
+		got := <-recvCh
 		desc := fmt.Sprintf("harness-written single-chunk request of %d bytes (client announced SendBufferSize=%d, server advertised ReceiveBufferSize=%d MaxMessageSize=%d)", chunk, l.peerSend, l.buf, l.mms)
 		switch {
 		case got == nil:
@@ -886,13 +975,56 @@ func (r *runner) doInject(m msgT) *failure {
 // ---------------------------------------------------------------------------
 // one case
 
+// closePair tears a pair down with resets instead of orderly closes, so that
+// thousands of pairs do not leave sockets in TIME_WAIT (ephemeral port exhaustion).
+func closePair(p *chanpair.Pair) {
+	if p.ClientConn != nil {
+		p.ClientConn.SetLinger(0)
+	}
+	if p.ServerConn != nil {
+		p.ServerConn.SetLinger(0)
+	}
+	p.Close()
+}
+
+// newPair retries while the host has no free port / socket (other checks run in parallel).
+func newPair(o chanpair.Options) (p *chanpair.Pair, err error) {
+	for i := 0; i < 120; i++ {
+		p, err = chanpair.New(o)
+		if err == nil {
+			return p, nil
+		}
+		if !resourceError(err) {
+			return nil, err
+		}
+		time.Sleep(time.Second)
+	}
+	return nil, err
+}
+
+// resourceError recognises failures of the host (ports, descriptors, scheduling), not of the library.
+func resourceError(err error) bool {
+	e := err.Error()
+	for _, s := range []string{"address already in use", "cannot assign requested address", "too many open files",
+		"accept timed out", "i/o timeout", "context deadline exceeded", "connection refused", "no buffer space"} {
+		if strings.Contains(e, s) {
+			return true
+		}
+	}
+	return false
+}
+
 // openPair builds the pair and opens the channel itself, so that a refusal of
 // the OPN exchange is reported with the error of the side that refused.
 func openPair(c caseT, server ackT) (*chanpair.Pair, *failure, error) {
 	o := c.options(server)
 	o.NoOpen = true
-	p, err := chanpair.New(o)
+	p, err := newPair(o)
 	if err != nil {
+		if e := err.Error(); !resourceError(err) && (strings.HasPrefix(e, "chanpair: dial:") || strings.HasPrefix(e, "chanpair: accept:")) {
+			// every generated configuration is valid: the Hello/Acknowledge exchange must succeed
+			return nil, &failure{sig: "B/open/hello-acknowledge-exchange-fails", msg: "(B) the Hello/Acknowledge exchange fails for a valid configuration (client " + fmt.Sprintf("%+v", c.Client) + ", server " + fmt.Sprintf("%+v", server) + "): " + e}, nil
+		}
 		return nil, nil, err
 	}
 	ctx, cancel := context.WithCancel(context.Background())
@@ -901,10 +1033,13 @@ func openPair(c caseT, server ackT) (*chanpair.Pair, *failure, error) {
 	go func() { srvDone <- p.Server.Receive(ctx) }()
 	cliDone := make(chan error, 1)
 	go func() { cliDone <- p.Client.Open(ctx) }()
-	const sig = "B/open/valid-configuration-cannot-open-a-channel"
+	sig := "B/open/valid-configuration-cannot-open-a-channel"
+	if server.MMS == 0 {
+		sig += "[server-MaxMessageSize=0]"
+	}
 	fail := func(timing bool, format string, args ...any) (*chanpair.Pair, *failure, error) {
 		cancel()
-		p.Close()
+		closePair(p)
 		return nil, &failure{sig: sig, timing: timing, msg: "(B) a channel cannot be opened with a valid configuration (client " + fmt.Sprintf("%+v", c.Client) + ", server " + fmt.Sprintf("%+v", server) + "): " + fmt.Sprintf(format, args...)}, nil
 	}
 	var cliErr error
@@ -1015,7 +1150,7 @@ func runOnce(c caseT) (fail *failure, nontrivial bool, classes []string, exclude
 		}
 		return f, !allEq, r.classes, false
 	}
-	defer p.Close()
+	defer closePair(p)
 	r.p = p
 	w, ok := parseHandshake(p.Tap.Frames())
 	if !ok {
@@ -1053,6 +1188,26 @@ func runOnce(c caseT) (fail *failure, nontrivial bool, classes []string, exclude
 	return nil, !allEq || r.near, r.classes, false
 }
 
+var (
+	inconclMu   sync.Mutex
+	inconclMsgs []string
+)
+
+// noteInconclusive keeps the first few time-out verdicts that did not reproduce (evidence only).
+func noteInconclusive(msg string) {
+	inconclMu.Lock()
+	defer inconclMu.Unlock()
+	if len(inconclMsgs) < 5 {
+		if len(msg) > 600 {
+			msg = msg[:600]
+		}
+		inconclMsgs = append(inconclMsgs, msg)
+		rec.Extra(fmt.Sprintf("inconclusive_timeouts_shard%d", shardIndex()), inconclMsgs)
+	}
+}
+
+func shardIndex() int { i, _ := ev.Shard(); return i }
+
 // check applies the timing rule: a failure whose only evidence is a time-out
 // must reproduce three times.
 func check(c caseT) (msg string, nontrivial bool, classes []string, inconclusive bool) {
@@ -1064,6 +1219,7 @@ func check(c caseT) (msg string, nontrivial bool, classes []string, inconclusive
 		for i := 0; i < 2; i++ {
 			f2, _, _, _ := runOnce(c)
 			if f2 == nil {
+				noteInconclusive(f.sig + ": " + f.msg)
 				return "", nt, classes, true
 			}
 			if !f2.timing {
@@ -1078,11 +1234,46 @@ func check(c caseT) (msg string, nontrivial bool, classes []string, inconclusive
 func TestLimits(t *testing.T) {
 	rec.Assume("limits are read from the Hello / Acknowledge frames recorded by the tap; chunk counts and sizes are what the tap saw; body size = 4 + len(ua.Encode(message)) (trusts the ua codec for the length of a ReadRequest / ReadResponse)")
 	rec.Assume("sender's chunk capacity (uasc.VerifActiveMaxBodySize) is used for choosing sizes only, never by the oracle; a refusal on account of MaxChunkCount is judged against the chunk count a twin pair without limits puts on the wire")
-	rec.Assume("harness-written chunks (policy None only) follow Part 6 6.7.2: 12-byte header, token id, sequence header, body; absence of delivery within 30 s counts only if reproduced 3 times")
+	rec.Assume("harness-written chunks (policy None only) follow Part 6 6.7.2: 12-byte header, token id, sequence header, body; absence of delivery within 60 s counts only if reproduced 3 times")
 	rapid.Check(t, func(t *rapid.T) {
 		c := genCase(t)
-		msg, nt, classes, inconcl := check(c)
 		b, _ := json.Marshal(c)
+		type resT struct {
+			msg     string
+			nt      bool
+			classes []string
+			inconcl bool
+		}
+		resCh := make(chan resT, 1)
+		go func() {
+			defer func() {
+				if p := recover(); p != nil { // infrastructure panics of the harness
+					resCh <- resT{msg: fmt.Sprintf("HARNESS PANIC: %v", p)}
+				}
+			}()
+			var r resT
+			r.msg, r.nt, r.classes, r.inconcl = check(c)
+			resCh <- r
+		}()
+		var msg string
+		var nt, inconcl bool
+		var classes []string
+		select {
+		case r := <-resCh:
+			msg, nt, classes, inconcl = r.msg, r.nt, r.classes, r.inconcl
+		case <-time.After(caseWatchdog):
+			// never a verdict: dump what is blocked for whoever reads the log and move on
+			buf := make([]byte, 1<<20)
+			buf = buf[:runtime.Stack(buf, true)]
+			fmt.Fprintf(os.Stderr, "C06 WATCHDOG: case did not finish within %v (inconclusive)\ncase: %s\n%s\n", caseWatchdog, b, buf)
+			noteInconclusive("watchdog: case did not finish within " + caseWatchdog.String() + ": " + string(b))
+			rec.Case(false, 0, "watchdog:case-abandoned")
+			rec.Inconclusive()
+			return
+		}
+		if strings.HasPrefix(msg, "HARNESS PANIC: ") {
+			panic(msg)
+		}
 		rec.Case(nt, ev.Hash(b), classes...)
 		if inconcl {
 			rec.Inconclusive()
